@@ -29,7 +29,57 @@ const INTERLOPERS: [&str; 6] = [
 
 pub fn cfg() -> ObsCfg {
     // plain evaluation: no probes, no shadow heap — the state under test is the interpreter's own
-    ObsCfg::plain(50_000)
+    ObsCfg::plain(400_000)
+}
+
+/// Programs that sit just below, at and just above the interpreter's own limits (nesting depth of the front end,
+/// operand sizes, the 16-bit stack index, the integer range): where a limit is must not depend on the build
+/// profile, the thread or the history either.
+pub fn limit_probes() -> Vec<String> {
+    let mut v = vec![];
+    for d in [60usize, 100, 126, 127, 128, 129, 130, 200, 254, 255, 256, 257, 258, 300, 520] {
+        v.push(format!("{}1{}", "(".repeat(d), ")".repeat(d)));
+        v.push(format!("{}1{}", "[".repeat(d), "]".repeat(d)));
+        v.push(format!("{}1{}", "{".repeat(d), "}".repeat(d)));
+        v.push(format!("{}1", "-".repeat(d)));
+        v.push(format!("{}ja", "!".repeat(d)));
+        v.push(format!("{}1{}", "als ja { ".repeat(d), " }".repeat(d)));
+        v.push(format!("{}1{}", "functie() { ".repeat(d), " }".repeat(d)));
+        v.push(format!("stel a = [0]; a{} = 1; a", "[0]".repeat(1) + &format!("; a[{}0{}]", "(".repeat(d), ")".repeat(d))));
+        // operator chains: d operators, left- and right-nested
+        v.push(format!("1{}", " + 1".repeat(d)));
+        v.push(format!("{}1{}", "1 + (".repeat(d), ")".repeat(d)));
+        v.push(format!("ja{}", " && ja".repeat(d)));
+        v.push(format!("stel a = 0; a{}", " = a".repeat(d.min(200))));
+        // else-if chains
+        v.push(format!("stel c = {}; als c == 0 {{ 0 }}{} anders {{ -1 }}", d, (1..=d).map(|k| format!(" anders als c == {} {{ {} }}", k, k)).collect::<String>()));
+    }
+    // recursion against the 16-bit stack index, with frames of different sizes
+    for (locals, depths) in [(0usize, vec![1000usize, 5000, 20000]), (8, vec![1000, 5000, 5950, 5957, 5958, 5959, 6000, 6500]), (40, vec![500, 1400, 1500, 1560, 1600])] {
+        let decls: String = (0..locals).map(|k| format!("stel v{} = {}; ", k, k)).collect();
+        for d in depths {
+            v.push(format!("functie f(n) {{ {}als n == 0 {{ 0 }} anders {{ 1 + f(n - 1) }} }}; f({})", decls, d));
+        }
+    }
+    // operand sizes: arguments, array elements, constants, locals
+    for n in [254usize, 255, 256, 257, 300] {
+        let params: String = (0..n).map(|k| format!("p{}, ", k)).collect();
+        let args: String = (0..n).map(|k| format!("{}, ", k)).collect();
+        v.push(format!("functie f({}) {{ p0 }}; f({})", params, args));
+        v.push(format!("lengte([{}])", args));
+        v.push(format!("functie f() {{ {} 1 }}; f()", (0..n).map(|k| format!("stel l{} = {}.5; ", k, k)).collect::<String>()));
+    }
+    // the integer range, in every operator that can leave it
+    for t in [
+        "1152921504606846975 + 1", "1152921504606846974 + 1", "-1152921504606846975 - 1", "-1152921504606846975 - 2", "1073741824 * 1073741824", "1073741824 * 1073741823",
+        "-1073741824 * 1073741824", "(-1152921504606846975 - 1) / -1", "(-1152921504606846975 - 1) % -1", "-(-1152921504606846975 - 1)", "(-1152921504606846975 - 1) * -1",
+        "1152921504606846975 * 1152921504606846975", "3037000500 * 3037000500", "4611686018427387904", "1152921504606846976", "-1152921504606846976", "int(1152921504606846975.0)",
+        "int(\"1152921504606846976\")", "stel a = 1; stel i = 0; zolang i < 70 { a = a * 2; i += 1 }; a", "stel a = [1, 2, 3]; a[1152921504606846975]", "stel a = [1, 2, 3]; a[-1152921504606846975]",
+        "\"abc\"[-1152921504606846975 - 1]", "stel a = [1]; a[-1152921504606846975 - 1] = 2",
+    ] {
+        v.push(t.to_string());
+    }
+    v
 }
 
 /// canonical rendering of an outcome: value / error kind / budget, plus the captured output
@@ -79,6 +129,9 @@ impl C16 {
                 v.push(format!("stel t = {}; t[0] = \"#\"; t", src));
                 v.push(src.to_string());
                 v.push(format!("stel t = {}; t += \"!\"; print(t); t[1] = \"%\"; [t, {}]", src, src));
+            }
+            if matches!(ctx.flavour, Flavour::Rel | Flavour::Dbg) {
+                v.extend(limit_probes());
             }
             v.push("stel a = [1, 2, [3]]; a[0] = 9; a[2][0] = a; a[1]".to_string());
             v.push("[1, 2, [3]]".to_string());
